@@ -59,6 +59,8 @@ func c05World(c *Ctx) *refgraph.World {
 		{"file:///v/r/sub/root.json", "file:///v/r/up.json", "file:///v/q/o.json"},
 		{"http://h.example/api/root.json", "http://h.example/api/x.json", "https://other.example/y.json"},
 		{"file:///v/r/root.json", "file:///v/r/root.json.d/shared.json", "file:///v/r/root.jsonx"},
+		// two documents served from one path, told apart by their query (referred to by absolute URL)
+		{"http://h.example/api/root.json", "http://h.example/api/x.json", "http://h.example/api/x.json?rev=2"},
 	}
 	urls := layouts[c.Intn(len(layouts))]
 	w := &refgraph.World{Root: urls[0], Docs: map[string]wire.V{}}
@@ -173,7 +175,7 @@ func refSpelling(c *Ctx, base string, t c05Target) string {
 	}
 	bu, _ := url.Parse(base)
 	tu, _ := url.Parse(t.doc)
-	if bu.Scheme == tu.Scheme && bu.Host == tu.Host && c.Coin(0.7) {
+	if bu.Scheme == tu.Scheme && bu.Host == tu.Host && bu.RawQuery == "" && tu.RawQuery == "" && c.Coin(0.7) {
 		// relative path from the directory of base
 		bdir := strings.Split(strings.TrimPrefix(bu.Path, "/"), "/")
 		bdir = bdir[:len(bdir)-1]
@@ -192,7 +194,7 @@ func refSpelling(c *Ctx, base string, t c05Target) string {
 }
 
 func runC05(c *Ctx) {
-	c.Res.Rule = "three-document worlds in four layouts (sibling, sub/parent directory, http/https hosts, locations whose URL is a textual prefix of another's) with definitions / parameters / responses / path items under names containing '/', '~', '~1', '%', '%2F', '#', '?', spaces, braces, quotes, non-ASCII; every such entry, nested pointers through properties / allOf / items, dangling members, indices, names and documents; resolved from every document as base through Resolve{Ref,Parameter,Response,PathItem,Items}WithBase with the root supplied as typed objects, as generic JSON and by location only; independent oracle: net/url ResolveReference + RFC 6901 evaluation of the designated sub-document, normalised by a decode+encode as the requested kind; error iff nothing is designated; nested $refs not followed; root unchanged; the three ways agree; model correspondence on the location-only and generic variants; non-trivial = reference with a non-empty pointer; distinct by (world, base, reference, kind, root form)"
+	c.Res.Rule = "three-document worlds in five layouts (sibling, sub/parent directory, http/https hosts, locations whose URL is a textual prefix of another's, two documents at one path told apart by their query) with definitions / parameters / responses / path items under names containing '/', '~', '~1', '%', '%2F', '#', '?', spaces, braces, quotes, non-ASCII; every such entry, nested pointers through properties / allOf / items, dangling members, indices, names and documents; resolved from every document as base through Resolve{Ref,Parameter,Response,PathItem,Items}WithBase with the root supplied as typed objects, as generic JSON and by location only; independent oracle: net/url ResolveReference + RFC 6901 evaluation of the designated sub-document, normalised by a decode+encode as the requested kind; error iff nothing is designated; nested $refs not followed; root unchanged; the three ways agree; model correspondence on the location-only and generic variants; non-trivial = reference with a non-empty pointer; distinct by (world, base, reference, kind, root form)"
 	nw := c.N(12, 300)
 	for wi := 0; wi < nw; wi++ {
 		w := c05World(c)
